@@ -45,27 +45,36 @@ class _BadElem:
 BAD_ELEM = _BadElem()
 
 
-class ExternalModule:
-    """a standard-library module: its attributes resolve to external names (which need an assumed contract to be called)"""
-    def __init__(self, name, I):
-        self._name, self._I = name, I
-        self._pyvc_native = True
-
-    def __getattr__(self, attr):
-        if attr.startswith('_'):
-            raise AttributeError(attr)
-        if attr.isupper():
-            return ('extconst', f'{self._name}.{attr}')
-        return self._I.external(f'{self._name}.{attr}')
-
-
 class Opaque:
-    """a value the verifier does not look into (file objects, csv readers, lines of an unknown text); identity only"""
+    """A value the verifier does not look into (file objects, ANTLR objects, csv readers, lines of an unknown text).  It has
+    identity, remembers attributes stored on it, and every call on it (or of an external function) is recorded as a ghost
+    event (tag, method, args) that contract clauses can inspect; results of such calls are fresh opaque values; the truth
+    value of an opaque result is an unknown Bool (both branches are explored)."""
+    _n = [0]
+
     def __init__(self, tag, deps=()):
         self.tag, self.deps = tag, tuple(deps)
+        self.attrs = {}
+        Opaque._n[0] += 1
+        self.n = Opaque._n[0]
+        self.truth_var = None
 
     def __repr__(self):
         return f'<opaque {self.tag}>'
+
+
+class ExtName:
+    """an external (standard library / third party) name: attribute access extends the dotted name, a call is an event"""
+    def __init__(self, qual, I):
+        self.qual, self.I = qual, I
+
+    def __repr__(self):
+        return f'<external {self.qual}>'
+
+
+class OpaqueMethod:
+    def __init__(self, obj, name):
+        self.obj, self.name = obj, name
 
 
 class Infeasible(Exception):
@@ -176,6 +185,7 @@ class Interp:
         self.ob_counter: Dict[str, int] = {}
         self.ghost: Dict[str, object] = {}
         self.ghost_names: Dict[str, int] = {}
+        self.events = []            # ghost trace of calls on external / opaque objects
         from .seq import PipeTable
         self.pipes = PipeTable(self)
         self.pointwise = 0
@@ -362,7 +372,11 @@ class Interp:
                 r = self.call_function(m, [v], {})
                 return self.truth(r)
             return True
-        if isinstance(v, (EnumVal, SEnum, ClassInfo, FuncInfo, Closure, BoundMethod, NativeFn, ExcVal, Opaque)):
+        if isinstance(v, Opaque):
+            if v.truth_var is None:
+                v.truth_var = self.fresh(f'truth({v.tag})', 'bool')
+            return v.truth_var
+        if isinstance(v, (EnumVal, SEnum, ClassInfo, FuncInfo, Closure, BoundMethod, NativeFn, ExcVal, ExtName)):
             return True
         from .seq import SSeq
         if isinstance(v, SSeq):
@@ -434,15 +448,14 @@ class Interp:
             ci = self.registry.for_call(qual)
             if ci is not None:
                 return NativeFn(lambda *a, **k: self.registry.apply_external(self, ci, a, k), qual)
-        if qual in ('csv', 'os', 'io'):
-            return ExternalModule(qual, self)
+
         short = qual.rsplit('.', 1)[-1]
         if qual in ('copy.deepcopy', 'copy.copy'):
             return NativeFn(lambda a: self.builtin_copy(a, deep=qual.endswith('deepcopy')), qual)
         if short in ('Optional', 'List', 'Dict', 'Set', 'Union', 'Any', 'Tuple', 'Sequence', 'Callable', 'ABC',
-                     'abstractmethod', 'Enum', 'auto', 'Path', 'annotations'):
+                     'abstractmethod', 'Enum', 'auto', 'annotations'):
             return ('typing', short)
-        raise Unsupported(f'external name {qual}')
+        return ExtName(qual, self)
 
     def builtin_name(self, name: str):
         if name in BUILTIN_EXCEPTIONS:
@@ -498,6 +511,22 @@ class Interp:
         if isinstance(cur, list) and isinstance(st.op, ast.Add):
             self.note_write(cur, 'list +=')
             cur.extend(self.iterate(rhs))
+            return
+        if isinstance(cur, (set, SSet)) and isinstance(st.op, (ast.BitOr, ast.BitAnd, ast.Sub)):
+            # in-place set operators mutate the object (aliases see the change)
+            self.note_write(cur, 'set ' + {ast.BitOr: '|=', ast.BitAnd: '&=', ast.Sub: '-='}[type(st.op)])
+            new = self.binop(st.op, cur, rhs)
+            if isinstance(cur, set) and isinstance(new, (set, frozenset)):
+                cur.clear()
+                cur.update(new)
+                return
+            if isinstance(cur, SSet) and isinstance(new, SSet):
+                cur.bits = dict(new.bits)
+                return
+            raise Unsupported('in-place set operator between a concrete and a symbolic set')
+        if isinstance(cur, XList) and isinstance(st.op, ast.Add):
+            self.note_write(cur, 'list +=')
+            cur.items.extend(self.iterate(rhs))
             return
         self.assign(st.target, self.binop(st.op, cur, rhs), env)
 
@@ -725,7 +754,20 @@ class Interp:
         self.exec_block(st.orelse, env)
 
     def st_With(self, st, env):
-        raise Unsupported('with statement')
+        # context managers are external objects (open files): enter binds the object itself, exit is an event
+        opened = []
+        for item in st.items:
+            v = self.ev(item.context_expr, env)
+            if not isinstance(v, Opaque):
+                raise Unsupported('with statement over a non-external object')
+            if item.optional_vars is not None:
+                self.assign(item.optional_vars, v, env)
+            opened.append(v)
+        try:
+            self.exec_block(st.body, env)
+        finally:
+            for v in reversed(opened):
+                self.events.append((v.tag, '__exit__', (), {}))
 
     # ------------------------------------------------------------------------------------------------ assignment
     def assign(self, target, v, env: Env):
@@ -776,11 +818,16 @@ class Interp:
         if getattr(obj, '_pyvc_native', False):
             setattr(obj, attr, v)
             return
+        if isinstance(obj, Opaque):
+            obj.attrs[attr] = v
+            self.events.append((obj.tag, 'set:' + attr, (v,), {}))
+            return
         raise Unsupported(f'attribute store on {type(obj).__name__}')
 
     def set_item(self, obj, key, v):
         if isinstance(obj, dict):
             if is_sym(key) or isinstance(key, (SStr, SEnum)):
+                self.note_write(obj, '[key]=')        # the write itself is a frame event even though its effect is not modelled
                 raise Unsupported('dict store with symbolic key')
             self.note_write(obj, '[key]=')
             obj[key] = v
@@ -1089,6 +1136,8 @@ class Interp:
             return a is b
         if isinstance(a, SObj) and isinstance(b, SObj):
             return getattr(a, 'orig', a) is getattr(b, 'orig', b)
+        if isinstance(a, (Opaque, ExtName)) or isinstance(b, (Opaque, ExtName)):
+            return a is b
         if isinstance(a, (SObj, list, dict, set, EnumVal, ClassInfo, XList)) and isinstance(b, (SObj, list, dict, set, EnumVal, ClassInfo, XList)):
             return a is b
         if isinstance(a, SEnum) or isinstance(b, SEnum):
@@ -1106,6 +1155,15 @@ class Interp:
             if a is None and b is None:
                 return True
             return False
+        if isinstance(a, Opaque) or isinstance(b, Opaque):
+            if a is b:
+                return True
+            # the value of an external result is unknown: an equality test on it is an unknown Bool (one per pair)
+            o, other = (a, b) if isinstance(a, Opaque) else (b, a)
+            key = ('eq', id(other) if not isinstance(other, (str, int, tuple)) else other)
+            if key not in o.attrs:
+                o.attrs[key] = self.fresh(f'eq({o.tag})', 'bool')
+            return o.attrs[key]
         if isinstance(a, (EnumVal, SEnum)) or isinstance(b, (EnumVal, SEnum)):
             if not (isinstance(a, (EnumVal, SEnum)) and isinstance(b, (EnumVal, SEnum))):
                 return False
@@ -1328,6 +1386,14 @@ class Interp:
             raise Unsupported(f'attribute {attr} of builtin {obj[1]}')
         if isinstance(obj, (str, SStr, list, dict, set, frozenset, tuple, SSet)):
             return BuiltinMethod(obj, attr)
+        if isinstance(obj, Opaque):
+            if attr in obj.attrs:
+                return obj.attrs[attr]
+            return OpaqueMethod(obj, attr)
+        if isinstance(obj, ExtName):
+            if attr.isupper():
+                return ('extconst', f'{obj.qual}.{attr}')
+            return self.external(f'{obj.qual}.{attr}')
         if isinstance(obj, ExcVal):
             if attr == 'args':
                 return obj.args
@@ -1716,6 +1782,17 @@ class Interp:
         if isinstance(f, tuple) and f and f[0] == 'builtin':
             from . import builtins_sym
             return builtins_sym.call_builtin(self, f[1], args, kwargs, env)
+        if isinstance(f, ExtName):
+            short = f.qual.rsplit('.', 1)[-1]
+            self.events.append(('ext', f.qual, tuple(args), dict(kwargs)))
+            return Opaque(short, args)
+        if isinstance(f, OpaqueMethod):
+            if self.registry is not None:
+                ci = self.registry.for_call(f'{f.obj.tag}.{f.name}')
+                if ci is not None:
+                    return self.registry.apply_external(self, ci, args, dict(kwargs, self=f.obj))
+            self.events.append((f.obj.tag, f.name, tuple(args), dict(kwargs)))
+            return Opaque(f'{f.obj.tag}.{f.name}()', (f.obj,))
         raise Unsupported(f'call of {type(f).__name__} {f!r}')
 
     def instantiate(self, cls: ClassInfo, args, kwargs):
@@ -1821,6 +1898,13 @@ class Interp:
         finally:
             self.depth -= 1
             self.cur_func, self.cur_line = saved
+
+    def builtin_open(self, args, kwargs):
+        self.events.append(('ext', 'open', tuple(args), dict(kwargs)))
+        o = Opaque('file', args)
+        o.attrs['path'] = args[0] if args else kwargs.get('file')
+        o.attrs['mode'] = args[1] if len(args) > 1 else kwargs.get('mode', 'r')
+        return o
 
     def builtin_copy(self, v, deep):
         if isinstance(v, (int, str, bool, type(None), SStr, EnumVal, SEnum)) or is_sym(v):
